@@ -121,6 +121,16 @@ CHECKS = {
   "note": COMMON_NOTE + "The WARC library (record format, gzip members, flushing before the feedback signal, DiscardHook) is modelled by its "
           "contract and validated by read-back, not verified.",
  },
+ "C03": {
+  "text": "The stop as decision logic over shapes of the source (archiver.Stop's client handling, cancel-then-wait, close-after-writers, the "
+          "four stage workers' pause handshakes, stopPipeline's order, the seen-store guard in preprocess): theorem that for every point "
+          "of the configuration matrix and every stop moment the run reaches the stop and the stop returns (no crash, no hang); the two "
+          "old shapes are shown to crash. Whole crawls stopped at origin-chosen moments across the matrix (SOCKS5 proxy, async WARC, rate "
+          "limiter, seencheck off, paused, requests held open): Stop must return in bounded time without panic and leave only finally "
+          "named WARC files made of complete members.",
+  "note": COMMON_NOTE + "Goroutine-level termination of each Stop() is observed (watchdog + goroutine dump), not proved; the model decides only "
+          "which paths a configuration makes reachable. WARC finalisation is the library's contract, validated by read-back.",
+ },
  "C05": {
   "text": "Theorem over the stage model for every seed tree, configuration, normaliser and seen-store: each node preprocess attaches a "
           "request to (seed, redirect target or asset) was accepted by the URL normaliser and passes the include / exclude / regex "
